@@ -187,12 +187,20 @@ Section Recall.
     unfold next_cmd, changes_begin. kh_auto; kh_keymap; try apply kh_emacs; try apply kh_vi_command; try apply kh_vi_insert.
   Qed.
 
+  Lemma kh_circular_branch rec cands backup mark i c :
+    (forall j, keeps_hist (rec j)) -> keeps_hist (circular_branch U cfg rec cands backup mark i c).
+  Proof.
+    intros Hr. unfold circular_branch. kh_display.
+    destruct c; kh_auto; try apply Hr; try apply kh_lb_changes; try apply kh_refresh_line.
+  Qed.
   Lemma kh_complete_circular fuel : forall start cands backup mark i,
     keeps_hist (complete_circular U cfg fuel start cands backup mark i).
   Proof.
     induction fuel as [|f IH]; intros start cands backup mark i; cbn [complete_circular]; [apply kh_fuel|].
-    kh_display. kh_auto; try apply kh_next_cmd; try apply kh_lb_changes; try apply kh_lb_quiet; try apply kh_move_cursor;
-      try apply kh_refresh_line; try apply IH.
+    apply kh_bind; [unfold show_candidate; kh_display; kh_auto; apply kh_lb_changes|]. intros _.
+    apply kh_bind; [apply kh_refresh_line|]. intros _.
+    apply kh_bind; [apply kh_next_cmd|]. intros c.
+    apply kh_circular_branch. intros j. apply IH.
   Qed.
   Lemma kh_wait_yn fuel : forall c, keeps_hist (wait_yn U cfg fuel c).
   Proof.
@@ -213,12 +221,21 @@ Section Recall.
     kh_auto; try apply kh_complete_circular; try apply kh_next_cmd; try apply kh_wait_yn; try apply kh_page;
       try apply kh_lb_changes; try apply kh_lb_quiet; try apply kh_move_cursor; try apply kh_refresh_line.
   Qed.
+  Lemma kh_isearch_branch rec backup mark term idx d success c :
+    (forall t i d' su, keeps_hist (rec t i d' su)) ->
+    keeps_hist (isearch_branch U cfg rec backup mark term idx d success c).
+  Proof.
+    intros Hr. unfold isearch_branch. kh_display.
+    apply kh_bind; [apply kh_get|]. intros s. cbv zeta.
+    destruct c; kh_auto; try apply Hr; try apply kh_lb_changes; try apply kh_refresh_line.
+  Qed.
   Lemma kh_isearch_loop fuel : forall backup mark term idx d success,
     keeps_hist (isearch_loop U cfg fuel backup mark term idx d success).
   Proof.
     induction fuel as [|f IH]; intros backup mark term idx d success; cbn [isearch_loop]; [apply kh_fuel|].
-    kh_display. kh_auto; try apply kh_next_cmd; try apply kh_lb_changes; try apply kh_lb_quiet; try apply kh_move_cursor;
-      try apply kh_refresh_line; try apply IH.
+    apply kh_bind; [apply kh_refresh_prompt_and_line|]. intros _.
+    apply kh_bind; [apply kh_next_cmd|]. intros c.
+    apply kh_isearch_branch. intros t i d' su. apply IH.
   Qed.
   Lemma kh_incremental_search fuel : keeps_hist (incremental_search U cfg fuel).
   Proof. unfold incremental_search, changes_begin. kh_auto; apply kh_isearch_loop. Qed.
